@@ -566,3 +566,130 @@ pub fn record(driver: &str, seed: u64, thorough: bool, out: &mut Out) -> Stats {
     s.stats.add("distinct_phase_cells", n);
     s.stats
 }
+
+// ---------------------------------------------------------------------------------------------
+// specification -> implementation: every transition of the bounded Adsr.tla graph on the real Adsr.
+// Model: 5-bit accumulator (M = 32), increments that are powers of two.  Real: fs = 128 Hz and times
+// (32 / step) / 128 s, for which the f32 increment is exactly step * 2^19, so the model accumulator is the
+// real one >> 19.  Sustain s of Q = 4 is s / 4.  Phase and position are compared after every step, the
+// output where the specification fixes it exactly (1.0 entering decay, the sustain level, 0.0 at rest).
+
+pub struct GraphTarget {
+    out: Out,
+    env: Option<Adsr>,
+    init: serde_json::Value,
+    sustain_q: i64,
+}
+
+const GFS: f32 = 128.0;
+const GSHIFT: u32 = 19;
+const GQ: f32 = 4.0;
+
+fn step_time(step: i64) -> f32 {
+    (32.0 / step as f32) / GFS
+}
+
+impl GraphTarget {
+    pub fn new(init_proj: &serde_json::Value) -> Self {
+        GraphTarget { out: Out::memory(), env: None, init: init_proj.clone(), sustain_q: 4 }
+    }
+    fn log(&mut self, op: &str, extra: &str) {
+        let o = obs(self.env.as_ref().unwrap()).2;
+        self.out.line(&format!("{{\"op\":\"{}\"{},{}}}", op, extra, o));
+    }
+    fn set_time(&mut self, w: char, step: i64) {
+        let x = step_time(step);
+        let t: f32 = TimePeriod::from(x).into();
+        let (fl, fr) = ratio_fix16(&[], &[t, GFS], 24).unwrap_or((0, 0));
+        self.env.as_mut().unwrap().set_input(match w {
+            'a' => Input::Attack(x.into()),
+            'd' => Input::Decay(x.into()),
+            _ => Input::Release(x.into()),
+        });
+        let extra = format!(",\"w\":\"{}\",\"arg\":{},\"ck\":{},\"fl\":{},\"fr\":{}", w, key(x), key(t), fl, fr);
+        self.log("si", &extra);
+    }
+    fn set_sustain(&mut self, sq: i64) {
+        let x = sq as f32 / GQ;
+        self.sustain_q = sq;
+        self.env.as_mut().unwrap().set_input(Input::Sustain(x.into()));
+        let extra = format!(",\"w\":\"s\",\"arg\":{},\"ck\":{},\"cq\":{}", key(x), key(x), q24(x));
+        self.log("si", &extra);
+    }
+}
+
+impl crate::graphrun::Target for GraphTarget {
+    fn fresh(&mut self) {
+        self.out = Out::memory();
+        let a = Adsr::new(GFS);
+        let t0: f32 = TimePeriod::from(0.001f32).into();
+        let (fl, fr) = ratio_fix16(&[], &[t0, GFS], 24).unwrap_or((0, 0));
+        let o = obs(&a).2;
+        self.out.line(&format!("{{\"op\":\"new\",\"fs\":{},\"fl\":{},\"fr\":{},{}}}", key(GFS), fl, fr, o));
+        self.env = Some(a);
+        // bring the parameters to the model's initial values: Proj = [phase, acc, val, a, d, r, S]
+        let (ia, id, ir, is) = (self.init[3].as_i64().unwrap(), self.init[4].as_i64().unwrap(),
+                                self.init[5].as_i64().unwrap(), self.init[6].as_i64().unwrap());
+        self.set_time('a', ia);
+        self.set_time('d', id);
+        self.set_time('r', ir);
+        self.set_sustain(is);
+    }
+    fn apply(&mut self, op: &serde_json::Value, p: &serde_json::Value) -> Vec<String> {
+        let before = phase_num(self.env.as_ref().unwrap().verif_state());
+        match op["op"].as_str().unwrap() {
+            "tick" => {
+                self.env.as_mut().unwrap().tick();
+                self.log("t", "");
+            }
+            "on" => {
+                self.env.as_mut().unwrap().gate_on();
+                self.log("on", "");
+            }
+            "off" => {
+                self.env.as_mut().unwrap().gate_off();
+                self.log("off", "");
+            }
+            "set" => {
+                let w = op["w"].as_str().unwrap().chars().next().unwrap();
+                self.set_time(w, op["i"].as_i64().unwrap());
+            }
+            "sus" => self.set_sustain(op["s"].as_i64().unwrap()),
+            other => {
+                eprintln!("unknown adsr graph op {}", other);
+                std::process::exit(2)
+            }
+        }
+        let mut tags = Vec::new();
+        let a = self.env.as_ref().unwrap();
+        let want_phase = match p[0].as_str().unwrap() {
+            "rest" => 0,
+            "attack" => 1,
+            "decay" => 2,
+            "sustain" => 3,
+            _ => 4,
+        };
+        let got_phase = phase_num(a.verif_state());
+        if got_phase != want_phase {
+            tags.push("C02:phase-order".to_string());
+        }
+        let acc = a.verif_phase_bits();
+        if (acc >> GSHIFT) as i64 != p[1].as_i64().unwrap() || acc & ((1 << GSHIFT) - 1) != 0 {
+            tags.push("C02:position".to_string());
+        }
+        if op["op"] == "tick" {
+            let v = a.value();
+            let s = self.sustain_q as f32 / GQ;
+            if (before == 1 && got_phase == 2 && v != 1.0) || (got_phase == 3 && v != s) || (got_phase == 0 && v != 0.0) {
+                tags.push("C01:end-level".to_string());
+            }
+            if !(0.0..=1.0).contains(&v) {
+                tags.push("C01:range".to_string());
+            }
+        }
+        tags
+    }
+    fn trace(&self) -> Vec<String> {
+        self.out.mem.clone()
+    }
+}
